@@ -21,7 +21,7 @@ RULE = (
     "position 1..r (also inside the header; kinds: id not a number, id outside the range, code not a choice, "
     "a character outside the allowed range, an id that repeats the id of the row before it - rejected by the IsUnique "
     "check only if that row is a data row -, delimited only: a row with too few items) x header style {rows that look like data, column titles that the "
-    "fields would reject} x validation limit in {None, 0..r+1} x observers {list(cutplace.rows(on_error='yield')), "
+    "fields would reject} x validation limit in {None, 0..r+1, 2^31, 2^64} x observers {list(cutplace.rows(on_error='yield')), "
     "cutplace.validate, both also with the CID named by the path of a CID file that is rewritten in place whenever "
     "the header count changes, applications.main with --until N (None: option omitted and also '--until -1')}; a "
     "fresh Cid per run; every CID restricts the allowed characters to printable ASCII and one kind of bad row breaks that. Oracle (own arithmetic, no cutplace): rejection reported iff header < bad row number <= limit "
@@ -47,7 +47,7 @@ ASSUMPTIONS = [
 EXHAUSTIVE = True
 EXHAUSTIVE_SCOPE = (
     "delimited and fixed: header 0..3 x r 1..6 x (all good | one bad row at each position 1..r x bad kinds) x "
-    "header styles x limit {None, 0..r+1} x {rows, validate, main}; fault family: header 0..3 x 0..5 good rows "
+    "header styles x limit {None, 0..r+1, 2^31, 2^64} x {rows, validate, main}; fault family: header 0..3 x 0..5 good rows "
     "before the fault x limit {None, 0..g+2} x validate"
 )
 
@@ -327,8 +327,11 @@ def table_specs(fmt, max_rows=MAX_ROWS):
     return specs
 
 
+BIG_LIMITS = [2 ** 31, 2 ** 64]  # far beyond any row count, and beyond what a C int / Py_ssize_t holds
+
+
 def limits_for(r):
-    return [None] + list(range(0, r + 2))
+    return [None] + list(range(0, r + 2)) + BIG_LIMITS
 
 
 class _Files(object):
